@@ -75,6 +75,10 @@ struct Snap {
     coords: Vec<String>,
 }
 
+fn snap_keys(a: &Airplanes) -> Snap {
+    Snap { keys: a.keys().map(|k| k.0).collect(), recs: vec![], coords: vec![] }
+}
+
 fn snap(a: &Airplanes) -> Snap {
     let mut keys = vec![];
     let mut recs = vec![];
@@ -217,6 +221,7 @@ pub fn execute(sc: &TScenario, mask: Mask) -> Outcome {
 #[allow(clippy::too_many_lines)]
 fn run(sc: &TScenario, mask: Mask, rx: (f64, f64), out: &mut Outcome, h: &mut Fnv) {
     let mut tr = Airplanes::new();
+    let need_snap = mask.c12 || mask.c13 || mask.c15;
     let mut m12: BTreeMap<Addr, u32> = BTreeMap::new();
     let mut m13: BTreeMap<Addr, P13> = BTreeMap::new();
     let mut m14: BTreeMap<Addr, P14> = BTreeMap::new();
@@ -269,9 +274,11 @@ fn run(sc: &TScenario, mask: Mask, rx: (f64, f64), out: &mut Outcome, h: &mut Fn
                 };
                 let df = frame.df.clone();
                 let cls = classify(&df);
-                let before = snap(&tr);
+                // C14's checks read the records directly; the full Debug rendering of every record
+                // around every event is only needed by the other models
+                let before = if need_snap { snap(&tr) } else { snap_keys(&tr) };
                 let ret = tr.action(frame, rx, sc.max_range);
-                let after = snap(&tr);
+                let after = if need_snap { snap(&tr) } else { snap_keys(&tr) };
                 h.str(hex);
                 h.u64(t);
                 h.u64(u64::from(ret == Added::Yes));
@@ -376,16 +383,16 @@ fn run(sc: &TScenario, mask: Mask, rx: (f64, f64), out: &mut Outcome, h: &mut Fn
                     check_c12_accounting(idx, &tr, &m12, out);
                 }
                 if mask.c14 {
-                    check_c14_views(idx, &tr, out);
+                    check_c14_views(idx, &tr, out, idx % 64 == 63);
                     if idx % 8 == 7 {
                         check_c14_tracks(idx, &tr, &m14, out);
                     }
                 }
             }
             TEv::Prune { secs, .. } => {
-                let before = snap(&tr);
+                let before = if need_snap { snap(&tr) } else { snap_keys(&tr) };
                 tr.prune(*secs);
-                let after = snap(&tr);
+                let after = if need_snap { snap(&tr) } else { snap_keys(&tr) };
                 h.str("prune");
                 h.u64(t);
                 h.u64(*secs);
@@ -697,7 +704,8 @@ fn check_c14_attrs(idx: usize, hex: &str, addr: &Addr, me: &ME, st: &AirplaneSta
     p.coords_dbg = dbg;
 }
 
-fn check_c14_views(idx: usize, tr: &Airplanes, out: &mut Outcome) {
+fn check_c14_views(idx: usize, tr: &Airplanes, out: &mut Outcome, force_render: bool) {
+    let mut track_total = 0usize;
     let mut expect_pos = vec![];
     let mut with_details = vec![];
     for (k, st) in tr.iter() {
@@ -708,6 +716,11 @@ fn check_c14_views(idx: usize, tr: &Airplanes, out: &mut Outcome) {
         }
         if let Some(p) = c.position {
             expect_pos.push((k.0, p));
+        }
+        let tlen = st.track.as_ref().map(Vec::len).unwrap_or(0);
+        track_total += tlen;
+        if tlen > 2048 {
+            out.probe("track_longer_than_2048");
         }
         let det = tr.aircraft_details(*k);
         let alts: Vec<Option<u16>> = c.altitudes.iter().map(|a| a.and_then(|a| a.alt)).collect();
@@ -727,7 +740,7 @@ fn check_c14_views(idx: usize, tr: &Airplanes, out: &mut Outcome) {
                     out.violate("C14:details-disagree-with-record", format!("after event #{idx}: {} details {d:?} vs record {st:?}", hexaddr(&k.0)));
                     return;
                 }
-                if format!("{:?}", d.track) != format!("{:?}", st.track) {
+                if d.track != st.track {
                     out.violate("C14:details-disagree-with-record", format!("after event #{idx}: {} details track differs from record track", hexaddr(&k.0)));
                     return;
                 }
@@ -750,7 +763,11 @@ fn check_c14_views(idx: usize, tr: &Airplanes, out: &mut Outcome) {
         out.violate("C14:position-list-differs", format!("after event #{idx}: all_position() = {got:?}, records with a position: {expect_pos:?}"));
         return;
     }
-    // the rendering lists exactly the aircraft with details
+    // the rendering lists exactly the aircraft with details (it renders every track, so with very
+    // long tracks it is only judged every 64th event)
+    if track_total > 400 && !force_render {
+        return;
+    }
     let text = tr.to_string();
     let listed: Vec<String> = text.lines().map(|l| l.split(':').next().unwrap_or("").to_string()).collect();
     let want: Vec<String> = with_details.iter().map(hexaddr).collect();
